@@ -291,6 +291,9 @@ func provenance(c Case, r Result, prop string) *Violation {
 			if e.BadType != "" {
 				return viol(prop+"/provenance/"+fam+"/wrong-qf", "call %d: %s", ci.Idx, e.BadType)
 			}
+			if !scen.IsStream(ci.Kind) && len(e.Replies) != e.N {
+				return viol(prop+"/provenance/"+fam+"/delivered-twice", "call %d (%s): invocation %d of the quorum function was shown %d replies (a reply was delivered more than once, or an invocation had no new reply)", ci.Idx, ci.Kind, e.N, len(e.Replies))
+			}
 			ids := r.IDs[ci.Mgr]
 			for id, rep := range e.Replies {
 				srv := -1
